@@ -1218,7 +1218,7 @@ func c18d(c *Ctx) {
 					}
 				}
 			}
-			if errV == nil || errV.Referrers() == nil || len(*errV.Referrers()) == 0 {
+			if errV == nil || len(liveReferrers(errV)) == 0 {
 				if name == "strconv.ParseInt" && formatUnit[fn] {
 					c.OK(key, pos, "ParseInt on an INT token inside format() parameters: error cannot occur for digits the lexer accepted (named exception)")
 					continue
@@ -1228,7 +1228,7 @@ func c18d(c *Ctx) {
 			}
 			handled := false
 			why := "the error result is neither returned nor compared with nil"
-			for _, r := range *errV.Referrers() {
+			for _, r := range liveReferrers(errV) {
 				switch y := r.(type) {
 				case *ssa.Return:
 					handled = true
@@ -1264,7 +1264,7 @@ func c18d(c *Ctx) {
 				case *ssa.BinOp:
 					if isNilConst(y.X) || isNilConst(y.Y) {
 						// find the If and the failure successor
-						for _, r2 := range *y.Referrers() {
+						for _, r2 := range liveReferrers(y) {
 							ifi, ok := r2.(*ssa.If)
 							if !ok {
 								// `err != nil && flag`: the combined value
